@@ -47,6 +47,8 @@ PROPS = {
     'C08': dict(
         modules=['NitroVerif.Props.C08', 'NitroVerif.Props.C06Handoff'],
         iruns=[('refcount', gens.gen_refcount, 200, 8000)],
+        runs=[('mvcc', gens.gen_store_fault, 40, 2000)],
+        keep_prefix=1,
         level='proof',
         level_text='C08_zero_is_final, C08_open_iff, C08_frontier_sound and C08_collector_progress are proved in Lean for every schedule, any number of threads and snapshots, on a small-step model with one program counter per yield point of Snapshot.Open/Close, GC, collectDead; C08_unfixed_counterexample is the kernel-checked witness for the original test-then-add Open; tied to nitro.go by regenerated tests/skeletons and steered schedules on the real code validated step by step',
         trusted=['Lean 4 kernel', 'tools/gofacts translation of Open/Close/GC/collectDead tests and skeletons',
